@@ -32,7 +32,10 @@ MANIFEST = dict(
          "log space -> linear domain statement by statement, logarithm and exponential uninterpreted; Gen/Increment.lean) and "
          "increment_source_eq_quadrature_model / increment_source_eq_information_model re-prove, for every field, state, "
          "likelihood, live count and both expectations, that the generated definition is the quadrature model's and the "
-         "information model's step - the theorems are about the source text as it is now. "
+         "information model's step - the theorems are about the source text as it is now. log_integrate_log_trap, "
+         "_NSIntegralState.finalise and .log_posterior_weights are translated too (harness/pylogvec2lean.py -> Gen/Trapezoid.lean) and "
+         "trapezoid_source_eq_model / finalise_source_eq_model / posterior_weights_source_eq_model prove them equal to the model's "
+         "trap, St.finalise and St.postW for every vector. "
          "INFORMATION AND UNCERTAINTY (Model/Information.lean, the recursion of increment with the logarithm as a parameter): "
          "for every logarithm function, ordered field and length >= 2 the accumulated value is the textbook information "
          "H = sum p_i lg L_i - lg Z (info_eq_textbook); over R, H >= -log(1 - X_N) >= 0 by Gibbs' inequality, hence "
@@ -45,7 +48,7 @@ MANIFEST = dict(
          "in (0,1)). The logarithm enters the information model as a table of 60-digit mpmath values (the theorems hold for every "
          "function lg, the sign theorems for the real logarithm). The plotting gradients of the state are not modelled.",
     technique="Lean 4 proof (induction over lists, ordered-field algebra) + source-to-Lean translation of "
-              "_NSIntegralState.increment (log space -> linear domain) re-proved equal to the model on every run + differential "
+              "_NSIntegralState.increment / finalise / log_posterior_weights and log_integrate_log_trap (log space -> linear domain) re-proved equal to the model on every run + differential "
               "correspondence against the exact Rat execution of the same definitions + mpmath oracle",
     ref="5/C02")
 
@@ -85,6 +88,46 @@ def gen(ctx):
             + lean + "\nend NessaiVerif.Gen.Increment\n")
     changed = py2lean.write_if_changed(core.LEAN / "NessaiVerif" / "Gen" / "Increment.lean", text)
     ctx.extra["generated"] = {"increment": dict(source=spec.source, rewritten=changed, **info)}
+    gen_trapezoid(ctx)
+
+
+def gen_trapezoid(ctx):
+    """regenerate Gen/Trapezoid.lean: log_integrate_log_trap, _NSIntegralState.finalise and .log_posterior_weights translated
+    from the current source (harness/pylogvec2lean.py: log vectors -> linear domain); C02.trapezoid_source_eq_model,
+    finalise_source_eq_model, posterior_weights_source_eq_model are re-proved on every run."""
+    from . import core, py2lean
+    from . import pylogvec2lean as V
+    common = dict(lsum="sumL", vec_calls={"logsubexp": "-"})      # logsubexp(x, y): elementwise x − y (raises when some x < y)
+    attrs = {"logLs": ("logLs", V.VLOG), "log_vols": ("log_vols", V.VLOG)}
+    calls = {"log_integrate_log_trap": ("log_integrate_log_trap", [V.VLOG, V.VLOG], V.LOG)}
+    specs = [
+        V.VecSpec(source="nessai/evidence.py", func="log_integrate_log_trap", name="log_integrate_log_trap",
+                  params=[("log_func", "log_func", V.VLOG), ("log_support", "log_support", V.VLOG)], result="K", **common),
+        V.VecSpec(source="nessai/evidence.py", cls="_NSIntegralState", func="finalise", name="finalise", params=[], result="K",
+                  self_attrs=attrs, calls=calls, **common),
+        V.VecSpec(source="nessai/evidence.py", cls="_NSIntegralState", func="log_posterior_weights", name="log_posterior_weights",
+                  params=[], result="List K", self_attrs=attrs, calls=calls, **common),
+    ]
+    parts, infos = [], {}
+    try:
+        for sp in specs:
+            lean, info = V.translate(core.REPO, sp)
+            parts.append(lean)
+            infos[sp.func] = info
+    except py2lean.TranslationError as e:
+        ctx.broken(f"translator: {e}", "Gen/Trapezoid.lean was left as it was (the theorems are about the last translatable source)")
+        return
+    except (OSError, SyntaxError) as e:
+        ctx.broken(f"translator: cannot read/parse the source: {e}")
+        return
+    text = ("import NessaiVerif.Model.Quadrature\n"
+            "/-\nGENERATED by harness/pylogvec2lean.py (harness/c02.py gen_trapezoid) from the CURRENT nessai source — do not edit.\n"
+            "C02: trapezoidal evidence and posterior weights, log vectors -> linear domain.\n-/\n"
+            "namespace NessaiVerif.Gen.Trapezoid\nopen NessaiVerif NessaiVerif.Quad\n\n"
+            "variable {K : Type} [Add K] [Sub K] [Mul K] [Div K] [OfNat K 0] [OfNat K 1]\n\n"
+            + "\n".join(parts) + "\nend NessaiVerif.Gen.Trapezoid\n")
+    rewritten = py2lean.write_if_changed(core.LEAN / "NessaiVerif" / "Gen" / "Trapezoid.lean", text)
+    ctx.extra["generated"].update(dict(infos, trapezoid_rewritten=rewritten))
 
 
 def _mp():
